@@ -94,6 +94,9 @@ def runRestOut (h : String) : String := withRestOp h fun op =>
     let bodyS := match enc.body with | none => "none" | some b => renderLeaves b
     s!"disp=1 enc {bytesToString op.rule.httpMethod} {toHex enc.path} {toHex (encodeQuery enc.query)} body={bodyS}"
 
+/-- A cut message can never be made into a REST request: nothing is dispatched. -/
+def runRestOutCut (h : String) : String := withRestOp h fun _ => "disp=0 err"
+
 def runRestIn (h : String) : String := withRestOp h fun op =>
   let body : Leaves := if op.rule.body == [0x2A] then normalizeLeaves op.schema op.leaves else []
   match restDecode op.schema reqMsgName op.rule op.method op.epath op.qparsed body with
